@@ -229,24 +229,26 @@ mod v_iface_ingress6 {
         kani::cover!(reply.is_none() && dst == ALL_NODES && dport == TCP_PORT && flags == 0x02, "SYN to all-nodes multicast");
     }
 
-    // @harness props=C11,C10 cfg=KI6 tier=q to=1200 mem=8 unwind=20 opts=nomem covers=3 funcs=InterfaceInner::process_ip;InterfaceInner::process_ipv6;InterfaceInner::process_tcp;InterfaceInner::has_multicast_group;InterfaceInner::has_solicited_node;tcp::Socket::accepts bounds=raw-IP_medium;_own_fe80::1_and_2001:db8::1;_source_with_4_and_destination_with_9_symbolic_octets_(all_address_classes);_any_ports,_flags
+    // @harness props=C11,C10 cfg=KI6 tier=q to=1500 mem=12 unwind=20 opts=nomem covers=3 funcs=InterfaceInner::process_ip;InterfaceInner::process_ipv6;InterfaceInner::process_tcp;InterfaceInner::has_multicast_group;InterfaceInner::has_solicited_node;tcp::Socket::accepts bounds=raw-IP_medium;_own_fe80::1_and_2001:db8::1;_source_with_4_and_destination_with_9_symbolic_octets_(all_address_classes);_any_ports,_flags
     #[kani::proof]
     pub(crate) fn ipv6_addr_tcp() {
         tcp_case(false);
     }
 
-    // @harness props=C11 kind=finding cfg=KI6 tier=q to=1200 mem=8 unwind=20 opts=nomem funcs=InterfaceInner::process_ipv6;InterfaceInner::process_tcp bounds=destination_::1_(not_configured),_any_source,_ports,_flags
+    // @harness props=C11 kind=finding cfg=KI6 tier=q to=1500 mem=12 unwind=20 opts=nomem funcs=InterfaceInner::process_ipv6;InterfaceInner::process_tcp bounds=destination_::1_(not_configured),_any_source,_ports,_flags
     #[kani::proof]
     pub(crate) fn finding_ipv6_loopback_tcp() {
         tcp_case(true);
     }
 
-    // @harness props=C11,C10,C09 cfg=KI6 tier=q to=1200 mem=8 unwind=20 opts=nomem covers=3 funcs=InterfaceInner::process_ip;InterfaceInner::process_ipv6;InterfaceInner::process_udp;InterfaceInner::icmpv6_reply;udp::Socket::accepts;udp::Socket::process bounds=raw-IP_medium;_own_fe80::1_and_2001:db8::1;_any_128-bit_source_and_destination;_any_ports;_4_payload_bytes
+    // @harness props=C11,C10,C09 cfg=KI6 tier=q to=1500 mem=12 unwind=20 opts=nomem covers=3 funcs=InterfaceInner::process_ip;InterfaceInner::process_ipv6;InterfaceInner::process_udp;InterfaceInner::icmpv6_reply;udp::Socket::accepts;udp::Socket::process bounds=raw-IP_medium;_own_fe80::1_and_2001:db8::1;_any_128-bit_source_and_destination;_any_ports;_4_payload_bytes
     #[kani::proof]
     pub(crate) fn ipv6_addr_udp() {
         env6_udp!(iface, sockets, uh);
         let src: [u8; 16] = kani::any();
         let dst: [u8; 16] = kani::any();
+        // ::1 is accepted although not configured: known finding F-C11-ipv6-loopback-from-network (checked by finding_ipv6_loopback_tcp)
+        kani::assume(dst != LOOPBACK);
         let sport: u16 = kani::any();
         let dport: u16 = kani::any();
         let pl: [u8; 4] = kani::any();
@@ -285,12 +287,14 @@ mod v_iface_ingress6 {
         kani::cover!(reply.is_some() && own, "port unreachable sent");
     }
 
-    // @harness props=C11,C10,C03 cfg=KI6 tier=q to=1200 mem=8 unwind=20 opts=nomem covers=2 funcs=InterfaceInner::process_ip;InterfaceInner::process_ipv6;InterfaceInner::process_icmpv6;InterfaceInner::icmpv6_reply bounds=raw-IP_medium;_own_fe80::1_and_2001:db8::1;_source_with_4_and_destination_with_9_symbolic_octets_(all_address_classes);_ICMPv6_echo_request/reply_or_error_types_with_4_data_bytes
+    // @harness props=C11,C10,C03 cfg=KI6 tier=q to=1500 mem=12 unwind=20 opts=nomem covers=2 funcs=InterfaceInner::process_ip;InterfaceInner::process_ipv6;InterfaceInner::process_icmpv6;InterfaceInner::icmpv6_reply bounds=raw-IP_medium;_own_fe80::1_and_2001:db8::1;_source_with_4_and_destination_with_9_symbolic_octets_(all_address_classes);_ICMPv6_echo_request/reply_or_error_types_with_4_data_bytes
     #[kani::proof]
     pub(crate) fn ipv6_addr_icmp() {
         env6_icmp!(iface, sockets, ih);
         let src = any_src();
         let dst = any_dst();
+        // ::1: known finding F-C11-ipv6-loopback-from-network
+        kani::assume(dst != LOOPBACK);
         let ty: u8 = kani::any();
         // echo request / reply and the error types; NDISC and MLD have their own harnesses
         kani::assume(ty == 128 || ty == 129 || ty <= 4);
@@ -329,6 +333,8 @@ mod v_iface_ingress6 {
         let src: [u8; 16] = kani::any();
         let dst: [u8; 16] = kani::any();
         kani::assume(is_mcast(&dst) == finding_region);
+        // ::1: known finding F-C11-ipv6-loopback-from-network
+        kani::assume(dst != LOOPBACK);
         let mut b = [0u8; 44];
         ipv6_header(&mut b, 4, 0x0c, 64, &src, &dst);
         let reply = iface.inner.process_ip(&mut sockets, PacketMeta::default(), &b[..], &mut iface.fragments);
@@ -347,13 +353,13 @@ mod v_iface_ingress6 {
         }
     }
 
-    // @harness props=C11,C10 cfg=KI6 tier=q to=1200 mem=8 unwind=20 opts=nomem covers=2 funcs=InterfaceInner::process_ipv6;InterfaceInner::process_nxt_hdr;InterfaceInner::icmpv6_reply bounds=raw-IP_medium;_unknown_next_header_value;_any_source;_any_non-multicast_destination
+    // @harness props=C11,C10 cfg=KI6 tier=q to=1500 mem=12 unwind=20 opts=nomem covers=2 funcs=InterfaceInner::process_ipv6;InterfaceInner::process_nxt_hdr;InterfaceInner::icmpv6_reply bounds=raw-IP_medium;_unknown_next_header_value;_any_source;_any_non-multicast_destination
     #[kani::proof]
     pub(crate) fn ipv6_unknown_nxt_hdr() {
         unknown_nxt_hdr_case(false);
     }
 
-    // @harness props=C11 kind=finding cfg=KI6 tier=q to=1200 mem=8 unwind=20 opts=nomem funcs=InterfaceInner::process_ipv6;InterfaceInner::process_nxt_hdr;InterfaceInner::icmpv6_reply bounds=raw-IP_medium;_unknown_next_header_value;_any_source;_any_multicast_destination
+    // @harness props=C11 kind=finding cfg=KI6 tier=q to=1500 mem=12 unwind=20 opts=nomem funcs=InterfaceInner::process_ipv6;InterfaceInner::process_nxt_hdr;InterfaceInner::icmpv6_reply bounds=raw-IP_medium;_unknown_next_header_value;_any_source;_any_multicast_destination
     #[kani::proof]
     pub(crate) fn finding_ipv6_unknown_nxt_hdr_multicast() {
         unknown_nxt_hdr_case(true);
